@@ -177,21 +177,21 @@ Proof.
     apply (rel_op_step (fun r => relation_set_version fixed r v) (OSetVersion 0 v) (rr_set_version v) f i j _
              (wraps_through (OSetVersion 0 v) (fun r => relation_set_version fixed r v) eq_refl)); auto.
     all: try (now exists ts, tid, ri, a, b, c, d).
-    all: try (intros r0 H0; destruct (plain_inv _ H0) as (n & q0 & v0 & ->); reflexivity).
+    all: try (intros r0 H0; destruct (plain_inv _ H0) as (n & q0 & v0 & ->); unfold plain in *; cbn in *; now auto).
     intros r0 H0. destruct v as [[vc ver]|]; [now apply set_version_some_node_op|now apply set_version_none_node_op].
   - (* drop_constraint *)
     cbn [aop_in_range] in Hr. cbn [compile astep].
     apply (rel_op_step (fun r => relation_set_version fixed r None) (ODropConstraint 0) (rr_set_version None) f i j _
              wraps_drop_constraint); auto.
     all: try (now exists ts, tid, ri, a, b, c, d).
-    all: try (intros r0 H0; destruct (plain_inv _ H0) as (n & q0 & v0 & ->); reflexivity).
+    all: try (intros r0 H0; destruct (plain_inv _ H0) as (n & q0 & v0 & ->); unfold plain in *; cbn in *; now auto).
     intros r0 H0. now apply set_version_none_node_op.
   - (* set_archqual *)
     cbn [aop_in_range] in Hr. cbn [compile astep].
     apply (rel_op_step (fun r => relation_set_archqual r q) (OSetArchqual 0 q) (rr_set_qual q) f i j _
              (wraps_through (OSetArchqual 0 q) (fun r => relation_set_archqual r q) eq_refl)); auto.
     all: try (now exists ts, tid, ri, a, b, c, d).
-    all: try (intros r0 H0; destruct (plain_inv _ H0) as (n & q0 & v & ->); reflexivity).
+    all: try (intros r0 H0; destruct (plain_inv _ H0) as (n & q0 & v & ->); unfold plain in *; cbn in *; now auto).
 Qed.
 
 (* ------------------------------------------------------------------ histories *)
